@@ -27,7 +27,35 @@ type cs struct {
 	P      int   `json:"p"`
 	E      int   `json:"e"`
 	F      int   `json:"f,omitempty"`
+	Slow   []int `json:"slow,omitempty"` // parties whose threads run only when nothing else can (baseline speeds)
+	Fast   []int `json:"fast,omitempty"` // parties whose threads run before everybody else's
 	Prefix []int `json:"prefix,omitempty"`
+}
+
+// options gives the scheduler options of a case: baseline "speeds" change the
+// default choice among the runnable threads, they do not restrict the search.
+func options(k cs) csched.Options {
+	o := csched.Options{HashStates: true}
+	if len(k.Slow) > 0 || len(k.Fast) > 0 {
+		o.Priority = func(name string) int {
+			var id int
+			if n, _ := fmt.Sscanf(name, "party%d", &id); n != 1 {
+				return 50
+			}
+			for _, x := range k.Slow {
+				if x == id {
+					return 0
+				}
+			}
+			for _, x := range k.Fast {
+				if x == id {
+					return 100
+				}
+			}
+			return 50
+		}
+	}
+	return o
 }
 
 type party struct {
@@ -200,13 +228,15 @@ func judge(k cs, w *world, r *csched.Result) (string, string) {
 }
 
 func report(ctx *runner.Ctx, k cs, kind, what string, r *csched.Result) {
-	ctx.Violate(kind, fmt.Sprintf("%s :: parties=%d conns=%d start-order=%v schedule=%v", what, k.N, k.C, k.Order, r.Choices), k)
+	ctx.Violate(kind, fmt.Sprintf("%s :: parties=%d conns=%d start-order=%v slow=%v fast=%v schedule=%v", what, k.N, k.C, k.Order, k.Slow, k.Fast, r.Choices), k)
 }
 
 func runCaseSharded(ctx *runner.Ctx, k cs, shard, nshards int) {
 	if k.Prefix != nil {
 		w := &world{}
-		r := csched.Run(k.Prefix, csched.Options{}, system(k, w))
+		o := options(k)
+		o.HashStates = false
+		r := csched.Run(k.Prefix, o, system(k, w))
 		ctx.Eval(1)
 		if kind, what := judge(k, w, r); kind != "" {
 			report(ctx, k, kind, what, r)
@@ -214,7 +244,7 @@ func runCaseSharded(ctx *runner.Ctx, k cs, shard, nshards int) {
 		return
 	}
 	x := &csched.Explorer{PBound: k.P, EBound: k.E, FBound: k.F, Shard: shard, NShards: nshards,
-		Opts: csched.Options{HashStates: true}, Stop: ctx.Expired}
+		Opts: options(k), Stop: ctx.Expired}
 	var w *world
 	x.Explore(func() {
 		w = &world{}
@@ -307,6 +337,27 @@ func work(ctx *runner.Ctx) {
 		}
 		for _, o := range ps {
 			cases = append(cases, cs{N: c.n, C: c.c, Order: o, P: c.p, E: c.e, F: c.f})
+		}
+	}
+	// baseline speeds: one party slow or fast relative to the others, identity start order
+	type spd struct{ n, c, p, e, f int }
+	speeds := []spd{{3, 4, 0, 1, 1}, {3, 2, 1, 0, 1}, {4, 4, 0, 0, 1}}
+	if !ctx.Quick() {
+		speeds = []spd{{3, 4, 1, 1, 1}, {3, 5, 0, 1, 2}, {3, 2, 1, 1, 2}, {4, 4, 0, 1, 2}, {4, 5, 0, 0, 1}, {5, 4, 0, 0, 1}}
+	}
+	for _, c := range speeds {
+		id := make([]int, c.n)
+		for i := range id {
+			id[i] = i
+		}
+		for i := 0; i < c.n; i++ {
+			cases = append(cases, cs{N: c.n, C: c.c, Order: id, P: c.p, E: c.e, F: c.f, Slow: []int{i}})
+			cases = append(cases, cs{N: c.n, C: c.c, Order: id, P: c.p, E: c.e, F: c.f, Fast: []int{i}})
+			for j := 0; j < c.n; j++ {
+				if j != i {
+					cases = append(cases, cs{N: c.n, C: c.c, Order: id, P: c.p, E: c.e, F: c.f, Slow: []int{i}, Fast: []int{j}})
+				}
+			}
 		}
 	}
 	ctx.Note(fmt.Sprintf("case list: %d systems (parties x connections x start order), each explored to its bound; every worker explores its share of each system's subtrees", len(cases)))
